@@ -7,8 +7,8 @@ Three interpreters run in lock step with shared symbolic inputs: `plain` (never 
 restored snapshot).  Symbolic scalars: guard bits, the context integer x and the increment D (contracts
 compare x with __old__.x, so contract verdicts are decided for all values), the delay of every sent event
 and the clock advances (reals) -- equal due times of pending events are found by the solver.
-Solver-enumerated: chart (history states, contracts with/without invariants), snapshot point and method,
-events.  Obligations: orig == plain at every step (the snapshot does not disturb), rest == orig from k on
+Solver-enumerated: chart (history states, contracts with/without invariants), snapshot point (before or after
+the client moved the clock) and method, events (external ones with symbolic delays at one level).  Obligations: orig == plain at every step (the snapshot does not disturb), rest == orig from k on
 (macro steps incl. event classes, context, configuration, contract errors).
 """
 import builtins
